@@ -24,4 +24,18 @@ def evalHs (args : List String) : String :=
     | _, _, _, _, _, _ => "bad-op"
   | _ => "bad-op"
 
+/-- `hs2 <12 args> / <12 args> / …`: every handshake on a connection behaves as on a fresh one (the model has no
+    connection state for session establishment to carry over) -/
+def evalHs2 (args : List String) : String :=
+  let rec go (fuel : Nat) (a : List String) (acc : List String) : List String :=
+    match fuel with
+    | 0 => acc
+    | f + 1 =>
+      if a.length < 12 then acc else
+      let r := evalHs (a.take 12)
+      let rest := a.drop 12
+      let rest := if rest.head? == some "/" then rest.drop 1 else rest
+      go f rest (acc ++ [r])
+  " ; ".intercalate (go args.length args [])
+
 end Bmc.Driver
